@@ -77,6 +77,10 @@ def run_tickers(start, tickers):
     async def marker(log, k):
         log.events.append(('mark', k))
 
+    async def late(log, k, d):
+        await (time + d)
+        log.events.append(('late', k))
+
     async def consume(spec, log, scope):
         make = interval if spec['kind'] == 'interval' else delay
         ds = spec['ds']
@@ -97,6 +101,8 @@ def run_tickers(start, tickers):
                 d = ds[k]
                 k += 1
                 if d:
+                    # an activity that is due at the very moment the body ends, queued behind the body's own wake-up
+                    scope.do(late(log, k - 1, d))
                     await (time + d)
                 log.body_ends.append(time.now)
             log.outcome = 'completed'
@@ -209,6 +215,13 @@ def monitor(spec, start, log):
         if m is None or not pos[('tick', k)] < m < pos[('tick', k + 1)]:
             bad.append('no other activity ran between iteration %d and %d (period %r, body took %r)'
                        % (k, k + 1, p, took[k] if k < len(took) else None))
+    # ... also an activity that became due at the moment the body ended (behind the body in the queue)
+    for k in range(len(log.ticks) - 1):
+        if k < len(took) and took[k] > 0:
+            m = pos.get(('late', k))
+            if m is None or not pos[('tick', k)] < m < pos[('tick', k + 1)]:
+                bad.append('the activity due at the end of body %d did not run before iteration %d began (period %r, '
+                           'body took %r)' % (k, k + 1, p, took[k]))
     return bad
 
 
@@ -812,6 +825,8 @@ def odd_bodies(ctx, n):
                 try:
                     async for now in interval(0):
                         log.append((now, time.now))
+                        if len(log) > 4:      # a ticker that goes on although its body overran: bounded, reported below
+                            break
                         await (time + d)
                     log.append('ended')
                 except IntervalExceeded:
